@@ -2850,6 +2850,27 @@ class _MatchToIf(ast.NodeTransformer):
     once.  Anything else (sequence, mapping, capture patterns) is left alone."""
 
     _n = [0]
+    _binds = []
+    _name_counts = {}
+
+    def visit_FunctionDef(self, node):
+        saved = self._name_counts
+        cnt = {}
+        for x in ast.walk(node):
+            if isinstance(x, ast.Name):
+                cnt[x.id] = cnt.get(x.id, 0) + 1
+            elif isinstance(x, ast.arg):
+                cnt[x.arg] = cnt.get(x.arg, 0) + 1
+            elif isinstance(x, ast.MatchAs) and x.name:
+                cnt[x.name] = cnt.get(x.name, 0) + 1
+        self._name_counts = cnt
+        try:
+            self.generic_visit(node)
+        finally:
+            self._name_counts = saved
+        return node
+
+    visit_AsyncFunctionDef = visit_FunctionDef
 
     def _test(self, subj, pat):
         if isinstance(pat, ast.MatchValue) and isinstance(pat.value, (ast.Constant, ast.Attribute)):
@@ -2867,6 +2888,13 @@ class _MatchToIf(ast.NodeTransformer):
             return _loc(ast.BoolOp(op=ast.Or(), values=parts), pat)
         if isinstance(pat, ast.MatchAs) and pat.pattern is None and pat.name is None:
             return True
+        if isinstance(pat, ast.MatchAs) and (isinstance(subj, ast.Name) or _pure_lookup(subj)):
+            # `case P as name` / `case name`: the test of P (always true for a bare capture) and `name = <subject>`
+            inner = True if pat.pattern is None else self._test(subj, pat.pattern)
+            if inner is None:
+                return None
+            self._binds.append((pat.name, subj))
+            return inner
         if isinstance(pat, ast.MatchSequence) and isinstance(subj, ast.Tuple) and len(pat.patterns) == len(subj.elts) and not any(isinstance(q, ast.MatchStar) for q in pat.patterns):
             # the subject is a display of that many elements: the sequence pattern is the conjunction of its parts
             parts = [self._test(e, q) for e, q in zip(subj.elts, pat.patterns)]
@@ -2895,17 +2923,45 @@ class _MatchToIf(ast.NodeTransformer):
                     pre.append(_loc(ast.Assign(targets=[_loc(ast.Name(id=nm, ctx=ast.Store()), node)], value=e), node))
                     elts.append(_loc(ast.Name(id=nm, ctx=ast.Load()), node))
             subj = _loc(ast.Tuple(elts=elts, ctx=ast.Load()), node)
+        elif isinstance(subj, ast.NamedExpr):
+            pass
+        elif _pure_lookup(subj) and not isinstance(subj, ast.Constant):
+            pass  # a plain lookup: evaluated again by each test it is the same object (nothing runs between the tests)
         elif not isinstance(subj, ast.Name):
-            if any(isinstance(x, (ast.Call, ast.NamedExpr, ast.Yield, ast.Await)) for x in ast.walk(subj)) or True:
+            if True:
                 self._n[0] += 1
                 nm = f"match__s{self._n[0]}"
+                # a case that captures the subject under a name gives the temporary that name (when the match statement
+                # is the only place of the enclosing module part that uses it)
+                caps = {c.pattern.name for c in node.cases if isinstance(c.pattern, ast.MatchAs) and c.pattern.pattern is None and c.pattern.name}
+                if len(caps) == 1:
+                    cap = next(iter(caps))
+                    inside = sum(1 for x in ast.walk(node) if (isinstance(x, ast.Name) and x.id == cap) or (isinstance(x, ast.MatchAs) and x.name == cap))
+                    total = self._name_counts.get(cap, 0)
+                    if total <= inside:
+                        nm = cap
                 pre.append(_loc(ast.Assign(targets=[_loc(ast.Name(id=nm, ctx=ast.Store()), node)], value=subj), node))
                 subj = _loc(ast.Name(id=nm, ctx=ast.Load()), node)
+        if isinstance(subj, ast.NamedExpr) and isinstance(subj.target, ast.Name):
+            pre.append(_loc(ast.Assign(targets=[_loc(ast.Name(id=subj.target.id, ctx=ast.Store()), node)], value=subj.value), node))
+            subj = _loc(ast.Name(id=subj.target.id, ctx=ast.Load()), node)
         tests = []
         for c in node.cases:
+            self._binds = []
             t = self._test(subj, c.pattern)
             if t is None:
                 return node
+            if self._binds:
+                if isinstance(c.pattern, ast.MatchOr) or len(self._binds) > 1:
+                    return node
+                nm, sj = self._binds[0]
+                bind = _loc(ast.Assign(targets=[_loc(ast.Name(id=nm, ctx=ast.Store()), c.pattern)], value=copy.deepcopy(sj)), c.pattern)
+                if c.guard is not None and any(isinstance(x, ast.Name) and x.id == nm for x in ast.walk(c.guard)):
+                    # the guard reads the captured name: it is the subject
+                    if any(isinstance(x, (ast.NamedExpr, ast.Lambda, ast.GeneratorExp, ast.ListComp, ast.SetComp, ast.DictComp)) for x in ast.walk(c.guard)):
+                        return node
+                    c.guard = _SubstNames({nm: sj}).visit(copy.deepcopy(c.guard))
+                c.body = [bind] + list(c.body)
             tests.append(t)
         chain = None
         for c, t in reversed(list(zip(node.cases, tests))):
